@@ -67,7 +67,7 @@ def make_model(case):
         raise
 
 
-def build_lf(case):
+def build_lf(case, tree_obj=None, aln_obj=None, before_alignment=None):
     from cogent3 import make_aligned_seqs, make_tree
 
     # history: other models built earlier in this interpreter (same class, other genetic code / alphabet / options);
@@ -75,16 +75,21 @@ def build_lf(case):
     for h in case.get("history") or []:
         hm = make_model(dict(h, bins=None))
         hm.get_alphabet()
-    tree = make_tree(case["tree"])
-    aln = make_aligned_seqs({n: s for n, s in case["aln"]}, moltype=case.get("moltype", "dna"))
-    # keep the requested row order
-    aln = aln.take_seqs([n for n, _ in case["aln"]])
+    tree = tree_obj if tree_obj is not None else make_tree(case["tree"])
+    if aln_obj is not None:
+        aln = aln_obj
+    else:
+        aln = make_aligned_seqs({n: s for n, s in case["aln"]}, moltype=case.get("moltype", "dna"))
+        # keep the requested row order
+        aln = aln.take_seqs([n for n, _ in case["aln"]])
     bins = case.get("bins")
     sm = make_model(case)
     if bins and bins.get("hmm"):
         lf = sm.make_likelihood_function(tree, bins=bins["n"], sites_independent=False)
     else:
         lf = sm.make_likelihood_function(tree, bins=bins["n"]) if bins else sm.make_likelihood_function(tree)
+    if before_alignment is not None:
+        before_alignment(tree)      # history step between make_likelihood_function and set_alignment
     lf.set_alignment(aln)
     names = lf.get_param_names()
     has_mprobs = "mprobs" in names or "psmprobs" in names
